@@ -21,16 +21,19 @@ var (
 )
 
 type scenario struct {
-	Name string
-	Kind string // local | remote-bound | remote-unbound
-	Plan plan
+	Name  string
+	Kind  string // local | remote-bound | remote-unbound
+	Plan  plan
+	Input []byte // the unit's stdin (nil: a few bytes)
+	TTL   string // remote work: time to live
 }
 
 var scenarios = []scenario{
-	{"local-running", "local", planRunning},
-	{"local-finished", "local", planFinished},
-	{"remote-bound", "remote-bound", planRunning},
-	{"remote-unbound", "remote-unbound", planFinished},
+	{Name: "local-running", Kind: "local", Plan: planRunning},
+	{Name: "local-finished", Kind: "local", Plan: planFinished, Input: bigInput},
+	{Name: "remote-bound", Kind: "remote-bound", Plan: planRunning, Input: bigInput},
+	{Name: "remote-unbound", Kind: "remote-unbound", Plan: planFinished},
+	{Name: "remote-ttl", Kind: "remote-unbound", Plan: plan{Steps: []string{"s1"}}, TTL: "3s"},
 }
 
 func freePort() int {
@@ -149,7 +152,30 @@ func waitPing(sock, target string, timeout time.Duration) bool {
 
 // submit sends `work submit` and reports how far the exchange got before the daemon died.
 func submit(sock, target string, pl plan) (unit string, acked, replied bool, reply string, err error) {
-	req, _ := json.Marshal(map[string]interface{}{"command": "work", "subcommand": "submit", "node": target, "worktype": "emit", "params": pl.params()})
+	return submitWith(sock, target, pl, []byte("input\n"), nil, nil)
+}
+
+// bigInput: the unit's input when the scenario is about it — 300 KiB that are not the output pattern
+var bigInput = func() []byte {
+	b := make([]byte, 300<<10)
+	x := uint32(2463534242)
+	for i := range b {
+		x ^= x << 13
+		x ^= x >> 17
+		x ^= x << 5
+		b[i] = byte(x)
+	}
+	return b
+}()
+
+// submitWith sends the input in two parts with a pause between them (the end of the input comes
+// late); midway, if given, is called after the first part (it may kill the daemon).
+func submitWith(sock, target string, pl plan, input []byte, extra map[string]string, midway func()) (unit string, acked, replied bool, reply string, err error) {
+	fields := map[string]interface{}{"command": "work", "subcommand": "submit", "node": target, "worktype": "emit", "params": pl.params()}
+	for k, v := range extra {
+		fields[k] = v
+	}
+	req, _ := json.Marshal(fields)
 	var c *Ctl
 	var l string
 	for try := 0; ; try++ {
@@ -170,7 +196,16 @@ func submit(sock, target string, pl plan) (unit string, acked, replied bool, rep
 		return "", false, false, l, nil
 	}
 	unit = strings.TrimSuffix(strings.Fields(l[strings.Index(l, "with ID ")+8:])[0], ".")
-	_ = c.Send([]byte("input\n"))
+	half := len(input) / 2
+	_ = c.Send(input[:half])
+	if midway != nil {
+		time.Sleep(100 * time.Millisecond)
+		midway()
+	}
+	if len(input) > 100 {
+		time.Sleep(150 * time.Millisecond)
+	}
+	_ = c.Send(input[half:])
 	if c.CloseWrite() != nil {
 		return unit, true, false, "", nil
 	}
@@ -223,7 +258,19 @@ func experiment(c *Ctx, dir string, sc scenario, cs *crashSpec, tag string) (*ob
 		return nil, nil, 0, fmt.Errorf("node A never reaches node B")
 	}
 	var reply string
-	o.Unit, o.Acked, o.Replied, reply, err = submit(a.Sock, e.target, sc.Plan)
+	input := sc.Input
+	if input == nil {
+		input = []byte("input\n")
+	}
+	var extra map[string]string
+	if sc.TTL != "" {
+		extra = map[string]string{"ttl": sc.TTL}
+	}
+	var midway func()
+	if cs != nil && cs.Point == "kill" && cs.Phase == "stdin" {
+		midway = func() { a.Kill() } // the daemon dies while the unit's input is still arriving
+	}
+	o.Unit, o.Acked, o.Replied, reply, err = submitWith(a.Sock, e.target, sc.Plan, input, extra, midway)
 	if err != nil {
 		return nil, nil, 0, fmt.Errorf("submit: %v", err)
 	}
@@ -263,6 +310,8 @@ func experiment(c *Ctx, dir string, sc scenario, cs *crashSpec, tag string) (*ob
 		time.Sleep(500 * time.Millisecond)
 		hits := readCrashLog(e.crashLog)
 		return o, hits, daemonPid, nil
+	case cs.Point == "kill" && cs.Phase == "stdin":
+		o.Reached = !a.Alive() && o.Acked
 	case cs.Point == "kill":
 		if cs.Phase == "finished" {
 			watch(func() bool { return o.Finished }, span+8*time.Second)
@@ -358,6 +407,36 @@ func experiment(c *Ctx, dir string, sc scenario, cs *crashSpec, tag string) (*ob
 		}
 	}
 	a.Env = []string{"VERIF_CRASH_LOG=" + e.crashLog + ".2"}
+	// `work results` of a finished resident asked while the restart is in progress: from the
+	// moment the control socket accepts, before the configuration has been processed.  It may be
+	// refused; if it streams, it streams exactly the output and ends.
+	if len(residents) > 0 {
+		duringDone := make(chan struct{})
+		defer func() { <-duringDone }()
+		go func() {
+			defer close(duringDone)
+			r := residents[0]
+			for t0 := time.Now(); time.Since(t0) < 20*time.Second; time.Sleep(5 * time.Millisecond) {
+				cn, err := net.DialTimeout("unix", a.Sock, 200*time.Millisecond)
+				if err != nil {
+					continue
+				}
+				cn.Close()
+				got, ended, err := WorkResults(a.Sock, r.Unit, 0, 6*time.Second)
+				switch {
+				case err != nil:
+					o.DuringRestart = "refused:" + err.Error()
+				case !ended:
+					o.DuringRestart = fmt.Sprintf("no-end:%d", len(got))
+				case bytes.Equal(got, r.Output):
+					o.DuringRestart = "complete"
+				default:
+					o.DuringRestart = fmt.Sprintf("differs:%d-of-%d", len(got), len(r.Output))
+				}
+				return
+			}
+		}()
+	}
 	if len(held) > 0 {
 		// let the runner go on the moment the new daemon has marked the unit (its monitor starts
 		// right after), at the latest when the daemon is up
@@ -445,6 +524,18 @@ func experiment(c *Ctx, dir string, sc scenario, cs *crashSpec, tag string) (*ob
 			}
 		}
 	}
+	// the unit's input: what the submitter sent before it got its final reply is on disk, whole
+	if o.Replied && unitDir != "" {
+		o.Stdin = "kept"
+		if b, err := os.ReadFile(filepath.Join(unitDir, "stdin")); err != nil || !bytes.Equal(b, input) {
+			o.Stdin = fmt.Sprintf("differs:%d-of-%d", len(b), len(input))
+		}
+		if e.b != nil && o.AtRestart.RemoteUnit != "" && (o.AtRestart.Started || (o.Before != nil && o.Before.Started)) {
+			if b, err := os.ReadFile(filepath.Join(e.b.UnitDir(o.AtRestart.RemoteUnit), "stdin")); err != nil || !bytes.Equal(b, input) {
+				o.Stdin = fmt.Sprintf("remote-differs:%d-of-%d", len(b), len(input))
+			}
+		}
+	}
 	// one more cycle: kill and start again, nothing new may happen (asked only for units the
 	// submitter knows of; the kill comes when the unit is at rest — a remote unit's status
 	// mirror makes its last copy up to a second after the unit has finished)
@@ -472,6 +563,28 @@ func experiment(c *Ctx, dir string, sc scenario, cs *crashSpec, tag string) (*ob
 				o.Results2 = "complete"
 			default:
 				o.Results2 = fmt.Sprintf("differs:%d-of-%d", len(got), len(wantOut))
+			}
+		}
+		// a unit directory that appears while the daemon runs (findUnit rescans the data directory
+		// for an ID it does not know): answered with its record, then listed
+		if len(residents) > 0 {
+			late := "LatePlanted1"
+			if copyDir(residents[0].dir, a.UnitDir(late)) == nil {
+				t0 := time.Now()
+				st, err := WorkStatus(a.Sock, late, 5*time.Second)
+				v := view{State: -1, Latency: time.Since(t0).Seconds()}
+				if err != nil {
+					v.Err = err.Error()
+				} else {
+					v = viewOf(st)
+					v.Latency = time.Since(t0).Seconds()
+					if lst, lerr := WorkList(a.Sock, 5*time.Second); lerr != nil {
+						v.Err = "work list: " + lerr.Error()
+					} else if _, ok := lst[late]; !ok {
+						v.Listed = false
+					}
+				}
+				o.Late = &v
 			}
 		}
 	} else {
@@ -530,6 +643,14 @@ func crashPlan(sc scenario, hits []hit, daemonPid int, thorough bool) []crashSpe
 		// still Pending and a live runner behind it
 		out = append(out, crashSpec{Point: "submit.started", Hit: 1, Pause: true}, crashSpec{Point: "update.written", Hit: 4, Pause: true})
 	}
+	if sc.Name == "remote-ttl" {
+		// remote work with a time to live for a node that is not there: killed while the time runs,
+		// and after it has run out (the unit Failed "Work unit expired")
+		out = []crashSpec{{Point: "kill", Phase: "running", After: 500 * time.Millisecond}, {Point: "kill", Phase: "finished"}}
+	}
+	if sc.Name == "local-running" {
+		out = append(out, crashSpec{Point: "kill", Phase: "stdin"})
+	}
 	if !thorough {
 		// quick tier: a fixed sample of the enumerated points — every kind of step once, every
 		// truncate->write window after the ID has been returned, the runner's own
@@ -538,7 +659,8 @@ func crashPlan(sc scenario, hits []hit, daemonPid int, thorough bool) []crashSpe
 				"update.truncated:2", "update.written:2", "update.truncated:3", "update.truncated:4", "update.written:4", "submit.started:1",
 				"update.loaded:5", "update.truncated:5", "update.written:5", "kill@running",
 				"update.truncated:1@runner", "update.truncated:3@runner", "update.written:3@runner",
-				"submit.started:1@daemon+runner-held", "update.written:4@daemon+runner-held"},
+				"submit.started:1@daemon+runner-held", "update.written:4@daemon+runner-held", "kill@stdin"},
+			"remote-ttl":     {"kill@running", "kill@finished"},
 			"local-finished": {"update.truncated:5", "kill@finished"},
 			"remote-bound":   {"update.truncated:1", "update.truncated:3", "update.truncated:4", "update.written:4", "update.truncated:5", "update.written:5", "update.truncated:6", "update.written:6"},
 			"remote-unbound": {"update.truncated:3", "submit.started:1"},
@@ -556,7 +678,7 @@ func crashPlan(sc scenario, hits []hit, daemonPid int, thorough bool) []crashSpe
 	}
 	if sc.Kind == "remote-bound" {
 		out = append(out, crashSpec{Point: "kill", Phase: "running", After: 900 * time.Millisecond},
-			crashSpec{Point: "kill", Phase: "finished"})
+			crashSpec{Point: "kill", Phase: "finished"}, crashSpec{Point: "kill", Phase: "stdin"})
 	}
 	return out
 }
@@ -612,6 +734,12 @@ func runAll(c *Ctx, sh *shared, tmp string) {
 			sh.im.Extra["crash-points:"+sc.Name] = fmt.Sprint(specs)
 			mu.Unlock()
 		}(si, sc)
+	}
+	if only == "" || strings.Contains("remote-release-pending", only) {
+		var rwg sync.WaitGroup
+		rwg.Add(1)
+		go func() { defer rwg.Done(); runReleasePending(c, sh, filepath.Join(tmp, "release-pending")) }()
+		defer rwg.Wait()
 	}
 	// the file-system calls of one submission under strace, for a local and for a remote unit
 	for _, sc := range scenarios {
